@@ -21,6 +21,7 @@ CONSTANTS
   Qs <- K_Q
   Vs <- K_V
   As <- F_A
+  QScales <- QS1
   Gravs <- K_G
   DisSets <- F_Dis
   TenK <- One0
@@ -30,6 +31,7 @@ CONSTANTS
   TenZero <- NoTz
   SpPairs <- NoSpS
   SpArms <- One0
+  Sleeps <- NoTz
   StiffPolys <- P00
   DampPolys <- P00
   TenKPolys <- P00
